@@ -278,6 +278,10 @@ def main():
     for l in known_lines:
         print(l)
     for k in known:
+        h = hdefs.get(k.get("harness") or "", None)
+        if k.get("status") == "known" and not k.get("_seen") and h is not None and h.get("tier") == "thorough" and tier != "thorough":
+            print("KNOWN-FINDING: property=%s %s: %s (its witness harness %s runs in the thorough tier)" % (prop, k["id"], k["what"], k["harness"])); k["_seen"] = True
+    for k in known:
         if k.get("status") == "known" and k.get("witness") == "native-only":
             print("KNOWN-FINDING: property=%s %s: %s" % (prop, k["id"], k["what"])); k["_seen"] = True
     for k in known:
